@@ -292,7 +292,8 @@ def check_loop_limits(prog, rep):
 def check_id_normalised(prog, rep):
     """mpo.py: the right identity index is stored as a (possibly negative) python index --
     MPO.__add__ stores -1. Wherever it is compared for equality with positions (np.nonzero
-    results, permutation entries) it must first be reduced modulo the bond dimension."""
+    results, permutation entries) or ordered against another index (`IdL > IdR`) it must first be
+    reduced modulo the bond dimension."""
     from ..cfg import CFG
     m = prog.module(MPO)
     n = 0
@@ -308,7 +309,8 @@ def check_id_normalised(prog, rep):
             continue
         cfg = None
         for c in body_nodes(f):
-            if isinstance(c, ast.Compare) and len(c.ops) == 1 and isinstance(c.ops[0], ast.Eq):
+            if isinstance(c, ast.Compare) and len(c.ops) == 1 and isinstance(
+                    c.ops[0], (ast.Eq, ast.Gt, ast.Lt, ast.GtE, ast.LtE)):
                 for side in (c.left, c.comparators[0]):
                     if isinstance(side, ast.Name) and side.id in ids:
                         other = c.comparators[0] if side is c.left else c.left
